@@ -6,6 +6,20 @@ import lib, halfspec
 DRV = os.path.join(lib.LEAN, ".lake", "build", "bin", "drv_half")
 
 
+class Phases:
+    """wall-clock seconds per phase of a check, recorded in chk.extra["phase_s"] (lock waits show up here)"""
+    def __init__(self, chk):
+        import time
+        self.chk, self.t, self.time = chk, time.time(), time
+        chk.extra["phase_s"] = {}
+
+    def mark(self, name):
+        now = self.time.time()
+        d = self.chk.extra["phase_s"]
+        d[name] = round(d.get(name, 0) + now - self.t, 1)
+        self.t = now
+
+
 def cpu_has_f16c():
     try:
         return "f16c" in open("/proc/cpuinfo").read().split("flags", 1)[-1].split("\n", 1)[0].split()
